@@ -87,6 +87,11 @@ type family struct {
 	// rehint: after a first render, every dot-imported path that was referenced may be hinted again
 	// as something else; having been rendered bare it stays a dot-import
 	rehint bool
+	// noFormat: File.NoFormat may be set
+	noFormat bool
+	// lateNames: after a first render, ImportName may be called for every referenced path whose
+	// name is known (a registered path keeps the name it was rendered under)
+	lateNames bool
 	// oneDict: the references may also be put, all together, into one Dict (as values / as keys)
 	oneDict bool
 }
@@ -237,6 +242,19 @@ func (fam *family) scenario(c *explore.Ctx) *imp.World {
 		w.MidRender()
 		w.Prefix("")
 	}
+	if fam.noFormat && c.Bool() {
+		w.F.NoFormat = true
+		w.Log = append(w.Log, "NoFormat=true")
+	}
+	if fam.lateNames && c.Bool() {
+		w.MidRender()
+		for _, p := range distinct {
+			if _, ok := fam.names[p]; ok && !w.Dot[p] {
+				w.F.ImportName(p, w.TrueName(p))
+				w.Log = append(w.Log, fmt.Sprintf("ImportName(%q,%q) after the render", p, w.TrueName(p)))
+			}
+		}
+	}
 	if fam.rehint && c.Bool() {
 		w.MidRender()
 		for _, p := range distinct {
@@ -384,7 +402,7 @@ type impCheck struct {
 func (ic *impCheck) judgeWorld(w *imp.World) (*imp.Analysis, []string) {
 	a, msg := renderAnalyze(w)
 	if a == nil {
-		if ic.tolerateFailure != nil && (strings.HasPrefix(msg, "render failed: ERROR") || strings.HasPrefix(msg, "intermediate render failed: ERROR")) && ic.tolerateFailure(w) {
+		if ic.tolerateFailure != nil && (strings.HasPrefix(msg, "render failed: ERROR") || strings.HasPrefix(msg, "intermediate render failed: ERROR") || w.F.NoFormat && strings.HasPrefix(msg, "output does not parse")) && ic.tolerateFailure(w) {
 			return nil, nil
 		}
 		return nil, []string{msg}
